@@ -1,8 +1,366 @@
-//! C07 observations (see props/c07.py for the consumer).
-#![allow(unused_imports, dead_code)]
+//! C07 observations (consumer: props/c07.py).
+//!   env     pump_spectral_amplitude at the centre, at ± half the FWHM span and at random detunings, several bandwidths
+//!   sup     every spectrum function at in-support points and at the boundary points of the support box / threshold
+//!   norm    jsi_normalization / jsi_singles_normalization together with every input the translated formula reads
+//!   scale   Rust-vs-Rust: spectra, counts, efficiencies, normalised spectra, Schmidt number, HOM visibility for
+//!           (power, deff) scaled over six decades
+//!   counts  counts_* next to the per-point spectra they sum
 use crate::common::*;
-use serde_json::json;
+use serde_json::{json, Value};
+use spdcalc::dim::ucum::{M, RAD, S};
+use spdcalc::jsa::FrequencySpace;
+use spdcalc::math::Integrator;
+use spdcalc::utils::vacuum_wavelength_to_frequency;
+use spdcalc::*;
 
-pub fn run(_args: &[String]) {
-  emit(json!({"kind": "not_implemented", "property": "C07"}));
+pub fn setups() -> Vec<(&'static str, String)> {
+  let mk = |kind: &str, pm: &str, theta: &str, len_um: f64, lp: f64, wp_um: f64, bw: f64, ls: f64, th_s: f64, ws_um: f64, pp: &str| -> String {
+    format!(
+      r#"{{"crystal":{{"kind":"{kind}","pm_type":"{pm}","phi_deg":0,"theta_deg":{theta},"length_um":{len_um},"temperature_c":20}},
+          "pump":{{"wavelength_nm":{lp},"waist_um":{wp_um},"bandwidth_nm":{bw},"average_power_mw":1.5,"spectrum_threshold":0.01}},
+          "signal":{{"wavelength_nm":{ls},"phi_deg":0,"theta_external_deg":{th_s},"waist_um":{ws_um},"waist_position_um":"auto"}},
+          "idler":"auto",{pp}"deff_pm_per_volt":3.2}}"#
+    )
+  };
+  let pp_auto = r#""periodic_poling":{"poling_period_um":"auto"},"#;
+  vec![
+    ("ktp_t2_pp", mk("KTP", "e->eo", "90", 6000., 775., 150., 0.5, 1550., 0., 80., pp_auto)),
+    ("ktp_t2_pp_nc", mk("KTP", "e->eo", "90", 2000., 775., 200., 2.0, 1550., 1.0, 100., pp_auto)),
+    ("bbo_t1", mk("BBO_1", "e->oo", "\"auto\"", 1000., 405., 120., 1.0, 810., 3.0, 90., "")),
+    ("bbo_t2", mk("BBO_1", "e->eo", "\"auto\"", 800., 405., 100., 0.3, 810., 0., 60., "")),
+    ("ln_t0_pp", mk("LiNbO3_1", "e->ee", "90", 3000., 775., 100., 5.0, 1550., 0., 50., pp_auto)),
+  ]
+}
+
+pub fn build(json: &str) -> Result<SPDC, String> {
+  let j = json.to_string();
+  match guarded(move || SPDC::from_json(j).map_err(|e| e.to_string())) {
+    Ok(Ok(s)) => Ok(s),
+    Ok(Err(e)) => Err(e),
+    Err(p) => Err(format!("panic: {}", p)),
+  }
+}
+
+fn hz(x: Frequency) -> f64 {
+  *(x / (RAD / S))
+}
+fn w(x: f64) -> Frequency {
+  x * RAD / S
+}
+fn cx(z: Complex<f64>) -> Value {
+  json!([fx(z.re), fx(z.im)])
+}
+fn next_up(x: f64) -> f64 {
+  if x.is_nan() || x == f64::INFINITY {
+    return x;
+  }
+  if x == 0.0 {
+    return f64::from_bits(1);
+  }
+  let b = x.to_bits();
+  f64::from_bits(if x > 0.0 { b + 1 } else { b - 1 })
+}
+fn next_down(x: f64) -> f64 {
+  -next_up(-x)
+}
+
+/// the spectral-width span exactly as the code's helpers compute it (for choosing the half-maximum points only; the
+/// consumer recomputes the span independently)
+fn span_of(spdc: &SPDC) -> f64 {
+  let lp = spdc.pump.vacuum_wavelength();
+  let f = spdc.pump_bandwidth;
+  hz(vacuum_wavelength_to_frequency(lp - 0.5 * f) - vacuum_wavelength_to_frequency(lp + 0.5 * f))
+}
+
+fn envelope(name: &str, spdc0: &SPDC, rng: &mut Rng, n: usize) {
+  for bw_nm in [0.1, 0.5, 2.0, 5.35, 20.0] {
+    let mut spdc = spdc0.clone();
+    spdc.pump_bandwidth = bw_nm * 1e-9 * M;
+    let wp = hz(spdc.pump.frequency());
+    let span = span_of(&spdc);
+    let mut pts: Vec<(String, f64)> = vec![
+      ("center".into(), wp),
+      ("half+".into(), wp + 0.5 * span),
+      ("half-".into(), wp - 0.5 * span),
+    ];
+    for _ in 0..n {
+      pts.push(("rand".into(), wp + span * rng.range(-2.5, 2.5)));
+    }
+    pts.push(("far".into(), wp + 40.0 * span));
+    for (tag, om) in pts {
+      let sp = spdc.clone();
+      let a = guarded(move || pump_spectral_amplitude(w(om), &sp));
+      emit(json!({"kind":"env","setup":name,"tag":tag,"wp":fx(wp),"fwhm":fx(*(spdc.pump_bandwidth / M)),"w":fx(om),
+        "alpha": a.as_ref().ok().map(|x| fx(*x)), "panic": a.err()}));
+    }
+  }
+}
+
+/// all spectrum functions at one point; `pm` only where the point is inside the box (elsewhere the integrand is not
+/// meant to be evaluated at all)
+fn observe_point(name: &str, tag: &str, spdc: &SPDC, js: &JointSpectrum, os: f64, oi: f64, integ: Integrator, with_pm: bool) {
+  let wp = hz(spdc.pump.frequency());
+  let thr = spdc.pump_spectrum_threshold;
+  let sp = spdc.clone();
+  let alpha = guarded(move || pump_spectral_amplitude(w(os) + w(oi), &sp)).ok();
+  let sp = spdc.clone();
+  let raw = guarded(move || jsa_raw(w(os), w(oi), &sp, integ));
+  let sp = spdc.clone();
+  let sraw = guarded(move || jsi_singles_raw(w(os), w(oi), &sp, integ));
+  let (pm, pms) = if with_pm {
+    let sp = spdc.clone();
+    let a = guarded(move || *(phasematch_fiber_coupling(w(os), w(oi), &sp, integ) / spdcalc::PerMeter4::new(1.))).ok();
+    let sp = spdc.clone();
+    let b = guarded(move || *(phasematch_singles_fiber_coupling(w(os), w(oi), &sp, integ) / spdcalc::PerMeter3::new(1.))).ok();
+    (a, b)
+  } else {
+    (None, None)
+  };
+  let j = js.clone();
+  let all = guarded(move || {
+    (
+      j.jsa(w(os), w(oi)),
+      *(j.jsi(w(os), w(oi)) / JSIUnits::new(1.)),
+      *(j.jsi_singles(w(os), w(oi)) / JSIUnits::new(1.)),
+      j.jsa_normalized(w(os), w(oi)),
+      j.jsi_normalized(w(os), w(oi)),
+      j.jsi_singles_normalized(w(os), w(oi)),
+    )
+  });
+  let mut o = json!({"kind":"sup","setup":name,"tag":tag,"wp":fx(wp),"fwhm":fx(*(spdc.pump_bandwidth / M)),"thr":fx(thr),
+    "ws":fx(os),"wi":fx(oi),"alpha":alpha.map(fx),"pm":pm.map(cx),"pms":pms.map(fx),
+    "jsa_raw": raw.as_ref().ok().map(|z| cx(*z)), "jsi_singles_raw": sraw.as_ref().ok().map(|x| fx(*x)),
+    "panic": raw.err().or(sraw.err())});
+  match all {
+    Ok((a, i, s, an, inn, sn)) => {
+      o["jsa"] = cx(a);
+      o["jsi"] = fx(i);
+      o["jsi_singles"] = fx(s);
+      o["jsa_n"] = cx(an);
+      o["jsi_n"] = fx(inn);
+      o["jsi_singles_n"] = fx(sn);
+    }
+    Err(p) => {
+      o["panic_spectrum"] = json!(p);
+    }
+  }
+  emit(o);
+}
+
+fn support(name: &str, spdc0: &SPDC, rng: &mut Rng, n: usize, integ: Integrator) {
+  // a pump frequency with a short mantissa, so that 3/4, 7/8, 1/8 of it and the differences used below are exact in f64
+  let mut spdc = spdc0.clone();
+  let wp0 = hz(spdc.pump.frequency());
+  let wp = f64::from_bits(wp0.to_bits() & !((1u64 << 30) - 1));
+  spdc.pump.set_frequency(w(wp));
+  let js = JointSpectrum::new(spdc.clone(), integ);
+  let (s0, i0) = (hz(spdc.signal.frequency()), hz(spdc.idler.frequency()));
+  let span = span_of(&spdc);
+  // in-support points
+  observe_point(name, "center", &spdc, &js, s0, wp - s0, integ, true);
+  observe_point(name, "center0", &spdc, &js, s0, i0, integ, true);
+  for _ in 0..n {
+    let ds = span * rng.range(-0.8, 0.8);
+    let di = span * rng.range(-0.8, 0.8);
+    observe_point(name, "rand_in", &spdc, &js, s0 + ds, i0 + di, integ, true);
+  }
+  // sum detuned beyond the threshold (alpha < 0.01 needs |d| > 2.15 widths ~ 1.83 spans)
+  for k in [1.9, 2.5, 6.0, -2.2] {
+    observe_point(name, "below_thr", &spdc, &js, s0 + k * span, i0, integ, true);
+  }
+  // box boundaries, with the threshold switched off so that a zero can only come from the box
+  let mut nothr = spdc.clone();
+  nothr.pump_spectrum_threshold = 0.0;
+  let jsn = JointSpectrum::new(nothr.clone(), integ);
+  let h = 0.5 * wp;
+  let pts: Vec<(&str, f64, f64, bool)> = vec![
+    ("ws=wp", wp, h, true),
+    ("ws=wp+", next_up(wp), h, false),
+    ("wi=wp", h, wp, true),
+    ("wi=wp+", h, next_up(wp), false),
+    ("ws=0", 0.0, h, false),
+    ("ws=-0", -0.0, h, false),
+    ("ws=tiny", f64::from_bits(1), h, true),
+    ("ws<0", -1e14, h, false),
+    ("wi=0", h, 0.0, false),
+    ("wi<0", h, -3e13, false),
+    ("d=3/4", 0.875 * wp, 0.125 * wp, true),
+    ("d=3/4+", next_up(0.875 * wp), 0.125 * wp, false),
+    ("d=3/4-", next_down(0.875 * wp), 0.125 * wp, true),
+    ("-d=3/4", 0.125 * wp, 0.875 * wp, true),
+    ("-d=3/4+", 0.125 * wp, next_up(0.875 * wp), false),
+    ("-d=3/4-", 0.125 * wp, next_down(0.875 * wp), true),
+    ("both>wp", 1.5 * wp, 1.25 * wp, false),
+  ];
+  for (tag, a, b, inside) in pts {
+    observe_point(name, tag, &nothr, &jsn, a, b, integ, inside);
+    // and with the configured threshold (here the envelope is far below it, except nowhere): still exactly zero
+    observe_point(name, &format!("{}|thr", tag), &spdc, &js, a, b, integ, false);
+  }
+  // threshold boundary: threshold = alpha exactly, one ulp above, one ulp below
+  for k in 0..3 {
+    let (os, oi) = if k == 0 { (s0, i0 + 0.7 * span) } else { (s0 + span * rng.range(-1.2, 1.2), i0 + span * rng.range(-0.5, 0.5)) };
+    let sp = spdc.clone();
+    let a = match guarded(move || pump_spectral_amplitude(w(os) + w(oi), &sp)) {
+      Ok(a) => a,
+      Err(_) => continue,
+    };
+    for (tag, t) in [("thr=alpha", a), ("thr=alpha+", next_up(a)), ("thr=alpha-", next_down(a))] {
+      let mut s2 = spdc.clone();
+      s2.pump_spectrum_threshold = t;
+      let j2 = JointSpectrum::new(s2.clone(), integ);
+      observe_point(name, tag, &s2, &j2, os, oi, integ, true);
+    }
+  }
+}
+
+fn norm(name: &str, spdc0: &SPDC, rng: &mut Rng, n: usize) {
+  for k in 0..n {
+    let mut spdc = spdc0.clone();
+    if k > 0 {
+      spdc.pump_bandwidth = rng.log_range(0.2e-9, 20e-9) * M;
+      spdc.pump_average_power = rng.log_range(1e-3, 1e3) * spdc.pump_average_power;
+      spdc.deff = rng.log_range(1e-3, 1e3) * spdc.deff;
+    }
+    let span = span_of(&spdc);
+    let os = hz(spdc.signal.frequency()) + if k == 0 { 0.0 } else { span * rng.range(-1.0, 1.0) };
+    let oi = hz(spdc.idler.frequency()) + if k == 0 { 0.0 } else { span * rng.range(-1.0, 1.0) };
+    let sp = spdc.clone();
+    let r = guarded(move || {
+      (
+        *(jsi_normalization(w(os), w(oi), &sp) / JsiNorm::new(1.)),
+        *(jsi_singles_normalization(w(os), w(oi), &sp) / JsiSinglesNorm::new(1.)),
+        *sp.signal.refractive_index(w(os), &sp.crystal_setup),
+        *sp.idler.refractive_index(w(oi), &sp.crystal_setup),
+        *(sp.signal.theta_external(&sp.crystal_setup) / RAD),
+        *(sp.idler.theta_external(&sp.crystal_setup) / RAD),
+      )
+    });
+    let (jn, jsn, ns, ni, ths, thi) = match r {
+      Ok(v) => v,
+      Err(p) => {
+        emit(json!({"kind":"norm_panic","setup":name,"panic":p}));
+        continue;
+      }
+    };
+    emit(json!({"kind":"norm","setup":name,"ws":fx(os),"wi":fx(oi),"wp":fx(hz(spdc.pump.frequency())),
+      "fwhm":fx(spdc.pump_bandwidth.value_unsafe),"len":fx(spdc.crystal_setup.length.value_unsafe),
+      "power":fx(spdc.pump_average_power.value_unsafe),"deff":fx(spdc.deff.value_unsafe),
+      "wpx":fx(spdc.pump.waist().x.value_unsafe),"wpy":fx(spdc.pump.waist().y.value_unsafe),
+      "wsx":fx(spdc.signal.waist().x.value_unsafe),"wsy":fx(spdc.signal.waist().y.value_unsafe),
+      "wix":fx(spdc.idler.waist().x.value_unsafe),"wiy":fx(spdc.idler.waist().y.value_unsafe),
+      "ths":fx(ths),"thi":fx(thi),"ns":fx(ns),"ni":fx(ni),"pp_off": spdc.pp == PeriodicPoling::Off,
+      "jn":fx(jn),"jsn":fx(jsn)}));
+  }
+}
+
+fn grid(spdc: &SPDC, res: usize, halfwidth_spans: f64) -> FrequencySpace {
+  let span = span_of(spdc);
+  let (s0, i0) = (hz(spdc.signal.frequency()), hz(spdc.idler.frequency()));
+  let d = halfwidth_spans * span;
+  FrequencySpace::new((w(s0 - d), w(s0 + d), res), (w(i0 - d), w(i0 + d), res))
+}
+
+fn rates(spdc: &SPDC, res: usize, integ: Integrator) -> Result<Value, String> {
+  let sp = spdc.clone();
+  guarded(move || {
+    let g = grid(&sp, res, 0.9);
+    let js = sp.joint_spectrum(integ);
+    let (s0, i0) = (hz(sp.signal.frequency()), hz(sp.idler.frequency()));
+    let span = span_of(&sp);
+    let p = (w(s0 + 0.21 * span), w(i0 - 0.13 * span));
+    let e = sp.efficiencies(g, integ);
+    let schmidt = js.schmidt_number(g).ok();
+    let hom = sp.hom_visibility(g, integ);
+    json!({
+      "power": fx(sp.pump_average_power.value_unsafe), "deff": fx(sp.deff.value_unsafe),
+      "jsa_raw": cx(jsa_raw(p.0, p.1, &sp, integ)), "jsi_singles_raw": fx(jsi_singles_raw(p.0, p.1, &sp, integ)),
+      "alpha": fx(pump_spectral_amplitude(p.0 + p.1, &sp)),
+      "jsa": cx(js.jsa(p.0, p.1)), "jsi": fx(*(js.jsi(p.0, p.1) / JSIUnits::new(1.))),
+      "jsi_singles": fx(*(js.jsi_singles(p.0, p.1) / JSIUnits::new(1.))),
+      "jsa_n": cx(js.jsa_normalized(p.0, p.1)), "jsi_n": fx(js.jsi_normalized(p.0, p.1)),
+      "jsi_singles_n": fx(js.jsi_singles_normalized(p.0, p.1)),
+      "jn": fx(*(jsi_normalization(p.0, p.1, &sp) / JsiNorm::new(1.))),
+      "jsn": fx(*(jsi_singles_normalization(p.0, p.1, &sp) / JsiSinglesNorm::new(1.))),
+      "c": fx(e.coincidences.value_unsafe), "rs": fx(e.signal_singles.value_unsafe), "ri": fx(e.idler_singles.value_unsafe),
+      "eff": [fx(e.symmetric), fx(e.signal), fx(e.idler)],
+      "schmidt": schmidt.map(fx), "hom_vis": fx(hom.1), "hom_dt": fx(hom.0.value_unsafe),
+    })
+  })
+}
+
+fn scaling(name: &str, spdc: &SPDC, res: usize, integ: Integrator, thorough: bool) {
+  let base = match rates(spdc, res, integ) {
+    Ok(v) => v,
+    Err(p) => {
+      emit(json!({"kind":"scale_panic","setup":name,"panic":p}));
+      return;
+    }
+  };
+  let dec = [1e-3, 1e-2, 1e-1, 1e1, 1e2, 1e3];
+  let mut combos: Vec<(f64, f64)> = vec![];
+  for (k, d) in dec.iter().enumerate() {
+    combos.push((*d, 1.0));
+    combos.push((1.0, *d));
+    if thorough {
+      combos.push((*d, dec[5 - k]));
+      combos.push((*d, dec[(k + 2) % 6]));
+    }
+  }
+  combos.push((3.7e-3, 2.9e2));
+  for (a, b) in combos {
+    let mut s2 = spdc.clone();
+    s2.pump_average_power = a * s2.pump_average_power;
+    s2.deff = b * s2.deff;
+    match rates(&s2, res, integ) {
+      Ok(v) => emit(json!({"kind":"scale","setup":name,"a":fx(a),"b":fx(b),"base":base.clone(),"scaled":v})),
+      Err(p) => emit(json!({"kind":"scale_panic","setup":name,"a":fx(a),"b":fx(b),"panic":p})),
+    }
+  }
+}
+
+fn counts(name: &str, spdc: &SPDC, res: usize, integ: Integrator) {
+  let sp = spdc.clone();
+  let r = guarded(move || {
+    let g = grid(&sp, res, 0.9);
+    let js = sp.joint_spectrum(integ);
+    let jsi: Vec<f64> = js.jsi_range(g).iter().map(|x| x.value_unsafe).collect();
+    let sing: Vec<f64> = js.jsi_singles_range(g).iter().map(|x| x.value_unsafe).collect();
+    let sing_i: Vec<f64> = js.jsi_singles_idler_range(g).iter().map(|x| x.value_unsafe).collect();
+    let (dws, dwi) = g.steps().division_widths();
+    let pts: Vec<Value> = g.as_steps().into_iter().map(|(a, b)| json!([fx(hz(a)), fx(hz(b))])).collect();
+    json!({"kind":"counts","setup":name,"res":res,"corr":fx(get_counts_correction(&sp)),"dws":fx(hz(dws)),"dwi":fx(hz(dwi)),
+      "pts": pts, "jsi": fxs(&jsi), "jsi_singles": fxs(&sing), "jsi_singles_idler": fxs(&sing_i),
+      "c": fx(sp.counts_coincidences(g, integ).value_unsafe), "rs": fx(sp.counts_singles_signal(g, integ).value_unsafe),
+      "ri": fx(sp.counts_singles_idler(g, integ).value_unsafe)})
+  });
+  match r {
+    Ok(v) => emit(v),
+    Err(p) => emit(json!({"kind":"counts_panic","setup":name,"panic":p})),
+  }
+}
+
+pub fn run(args: &[String]) {
+  let seed = arg_u64(args, 0, 1);
+  let n = arg_u64(args, 1, 4) as usize;
+  let thorough = arg_u64(args, 2, 0) == 1;
+  let mut rng = Rng::new(seed);
+  let integ = Integrator::Simpson { divs: if thorough { 30 } else { 16 } };
+  let res = if thorough { 6 } else { 4 };
+  for (name, js) in setups() {
+    let spdc = match build(&js) {
+      Ok(s) => s,
+      Err(e) => {
+        emit(json!({"kind":"setup_fail","setup":name,"error":e}));
+        continue;
+      }
+    };
+    emit(json!({"kind":"setup","setup":name,"wp":fx(hz(spdc.pump.frequency())),"ws0":fx(hz(spdc.signal.frequency())),
+      "wi0":fx(hz(spdc.idler.frequency())),"pp_off": spdc.pp == PeriodicPoling::Off}));
+    envelope(name, &spdc, &mut rng, n);
+    support(name, &spdc, &mut rng, n, integ);
+    norm(name, &spdc, &mut rng, n + 2);
+    scaling(name, &spdc, res, integ, thorough);
+    counts(name, &spdc, res, integ);
+  }
 }
